@@ -28,7 +28,8 @@ DriftOf(e, V) ==
                 /\ (r.hdr.form = "none" \/
                     (r.hdr.form = "unparsable" /\ e.hdr.form = "unparsable") \/
                       (/\ e.hdr.ohas /\ e.hdr.ook /\ e.hdr.form = r.hdr.form
-                       /\ e.hdr.ns = r.hdr.ns /\ e.hdr.cls = r.hdr.cls
+                       /\ (e.hdr.ns = r.hdr.ns \/ e.hdr.nss = r.hdr.ns)
+                       /\ e.hdr.cls = r.hdr.cls
                        /\ SeqToSet(e.hdr.keys) = SeqToSet(r.hdr.keys)))
              THEN {} ELSE {"hdr"})
 
